@@ -89,7 +89,8 @@ STREAM_RULE = "conformant multi-call histories from the RFC-level generator (tem
 MUT_RULE = ", plus byte mutations of the encoded histories (truncation, length-word edits, bit flips, splices, extensions)"
 
 PROPS = {
-    "C01": {"oracle": "C01", "view": ["outcome"], "families": lambda rng, tier: gen.fam_extremal(rng, tier) + fam_general(rng, tier) + gen.fam_redefine(rng, n(tier, 40, 300)),
+    "C01": {"dev_families": lambda rng, tier: [sc for sc in gen.fam_extremal(rng, tier) if sc[0].startswith("extremal-chain") or sc[0].startswith("extremal-ipfix-records-2000")],
+            "oracle": "C01", "view": ["outcome"], "families": lambda rng, tier: gen.fam_extremal(rng, tier) + fam_general(rng, tier) + gen.fam_redefine(rng, n(tier, 40, 300)),
             "mutate_per": {"quick": 1, "thorough": 3}, "rule": STREAM_RULE + MUT_RULE + "; extremal families: IPFIX data set packed with 1-byte records (quick: 2000 and 20000, thorough: up to 65000), 4095 chained 16-byte IPFIX messages, 2730 chained empty V5 packets, V9 zero-size templates, headers announcing 65535 records/fields, templates with up to 4000 zero-length fields — always after a history that cached the attacker-chosen template"},
     "C02": {"oracle": "C02", "view": ["outcome", "pkts"], "families": fam_general, "mutate_per": {"quick": 2, "thorough": 4},
             "rule": STREAM_RULE + ", random garbage with plausible version words" + MUT_RULE},
